@@ -292,6 +292,10 @@ impl SqliteStore {
         F: AsyncFnOnce(&mut Transaction) -> Result<R, SqliteError>,
     {
         let mut tx_ref = self.tx.lock().await;
+
+        #[cfg(p2panda_p2panda_verif)]
+        verif::point("tx_locked").await;
+
         let tx = tx_ref.as_mut().ok_or(SqliteError::TransactionMissing)?;
 
         f(tx).await
